@@ -24,6 +24,7 @@ var defaultExec = []string{
 	"golang.org/x/sync/semaphore",
 	"sync/atomic",
 	"github.com/protolambda/zrnt/eth2/util/merkle",
+	"github.com/protolambda/zrnt/eth2/util/hashing",
 	"github.com/protolambda/ztyp/tree",
 	"github.com/ethereum/go-ethereum/common",
 	"github.com/ethereum/go-ethereum/p2p/enode.LogDist",
@@ -673,14 +674,18 @@ func (in *Interp) ufApply(name string, u UFCfg, arg *smt.Term, rt types.Type) Va
 }
 
 func (in *Interp) ufTerm(name string, u UFCfg, arg *smt.Term, retBits int) *smt.Term {
-	ufName := fmt.Sprintf("uf!%s!%d", shortName(name), arg.Sort.W)
+	base := shortName(name)
+	if u.As != "" {
+		base = u.As
+	}
+	ufName := fmt.Sprintf("uf!%s!%d", base, arg.Sort.W)
 	var res *smt.Term
 	if retBits == 0 {
 		res = in.C.App(ufName, smt.BoolSort, arg)
 	} else {
 		res = in.C.App(ufName, smt.BVSort(retBits), arg)
 	}
-	if u.Injective {
+	if u.Injective && in.lenient == 0 {
 		apps := in.ufApps[ufName]
 		dup := false
 		for _, a := range apps {
